@@ -73,6 +73,9 @@ func distanceToPointMeters(context *api.Context, path b6.Geometry, point b6.Geom
 // For multipolygons, we return the centroid of the convex hull formed from
 // the points of those polygons.
 func centroid(context *api.Context, geometry b6.Geometry) (b6.Geometry, error) {
+	if err := requireGeometry("centroid", geometry); err != nil {
+		return nil, err
+	}
 	switch geometry.GeometryType() {
 	case b6.GeometryTypePoint:
 		return geometry, nil
